@@ -247,6 +247,7 @@ def run(ctx):
     session_pass(ctx)
     dividing_volume(ctx)
     built_in_steps(ctx)
+    long_interval_deterministic(ctx)
 
 
 def session_pass(ctx):
@@ -321,6 +322,36 @@ def built_in_steps(ctx):
                 return
             ctx.count("stepwise:" + how)
         ctx.nontriv(("stepwise", how))
+
+
+def long_interval_deterministic(ctx):
+    """deterministic runs whose requested time points lie hundreds of thousands of solver steps apart (inside the
+    simulator's step budget): a complete result of numbers whose first row is the initial condition, whichever way the call
+    is made."""
+    import warnings
+    from bioscrape.simulator import ModelCSimInterface
+    spec = {"species": ["X", "Y"], "reactions": [
+        {"reactants": [], "products": ["X"], "prop": {"type": "general", "rate": "w*c"}},
+        {"reactants": ["X"], "products": [], "prop": {"type": "general", "rate": "w*Y"}},
+        {"reactants": [], "products": ["Y"], "prop": {"type": "general", "rate": "w*X"}},
+        {"reactants": ["Y"], "products": [], "prop": {"type": "general", "rate": "w*c"}}],
+        "params": {"w": 40.0, "c": 10.0}, "ic": {"X": 15.0, "Y": 10.0}}
+    T = np.linspace(0, 600.0, 3)
+    base = {"stochastic": False, "delay": False, "safe": False, "volume": "off", "dataframe": False, "model": True, "interface": False}
+    for name, opts in (("model", base), ("safe", dict(base, safe=True)), ("interface", dict(base, model=False, interface=True)), ("volume number", dict(base, volume="number")),
+                       ("dataframe", dict(base, dataframe=True))):
+        ctx.begin_case({"model": "oscillator", "grid": T.tolist(), "options": opts})
+        M = build_model(spec)
+        first = [float(spec["ic"][s_]) for s_ in M.get_species_list()]
+        with warnings.catch_warnings():
+            warnings.simplefilter("ignore")
+            real = call_real(M, opts, T)
+        ctx.evaluated()
+        if real["outcome"] != "result" or real["rows"] != len(T) or not np.allclose(real["first"], first, rtol=0, atol=1e-9):
+            ctx.violation("entry/long-intervals", "deterministic run over [0, 600] in three points (%s): %s" % (name, {k: real.get(k) for k in ("outcome", "rows", "first", "msg")}),
+                          {"options": opts, "implementation": real})
+            return
+        ctx.count("long_interval_calls")
 
 
 def call_real_neither(opts, T):
